@@ -31,6 +31,7 @@ MECHANICS (important — this sandbox is offline)
  * "Compiles": `cd {wt}/code/go/0chain.net && go build ./...` must succeed (with the replace line).
  * "Existing tests pass": with the replace line REMOVED the pinned suite is `cd {wt}/code/go/0chain.net && go test -vet=off -count=1 ./chaincore/client/... ./chaincore/node/... ./conductor/conductrpc/stats/... ./core/cache/... ./core/config/... ./core/encryption/... ./core/sortedmap/... ./core/util/... ./core/viper/... ./sharder/blockdb/...` — it must still pass. In addition, with the stub, the packages the README lists as passing must still pass if your change touches them.
  * Do not run `go mod tidy`, do not add dependencies.
+ * NEVER use `git stash` (all scratch worktrees share one stash stack and other engineers work in parallel): to test the unchanged code use `git apply -R <your patch>` / `git apply <your patch>` or a `git archive HEAD` copy.
 
 DELIVERABLES — write them to {out}/ :
  * patch.diff — `git -C {wt} diff` of ONLY the non-test source change (no go.mod change, no test files, no moved files). It must apply with `git apply` to a clean checkout.
